@@ -12,6 +12,8 @@
 #include <micm/util/sparse_matrix_vector_ordering.hpp>
 #include <micm/util/vector_matrix.hpp>
 
+#include <cmath>
+#include <cstring>
 #include <set>
 
 using vio::Out;
@@ -47,6 +49,21 @@ static SM build_A(const Case& cs)
     for (std::size_t k = 0; k < cs.pat.size(); ++k)
       A[b][cs.pat[k].first][cs.pat[k].second] = Zp(cs.vals[b * cs.pat.size() + k]);
   return A;
+}
+
+// the same pattern with another number of blocks: the decompositions and solvers are created from the sparsity
+// structure alone and must serve matrices of any block count with that structure
+template<class SM>
+static SM build_structure(const Case& cs, std::size_t nblocks)
+{
+  auto builder = SM::Create(cs.n).SetNumberOfBlocks(nblocks).InitialValue(Zp(0));
+  for (auto& p : cs.pat)
+    builder = builder.WithElement(p.first, p.second);
+  return SM(builder);
+}
+static std::size_t other_block_count(const Case& cs)
+{
+  return cs.nb % 2 == 0 ? cs.nb : (cs.nb == 1 ? 3 : 1);   // even counts: the same; odd counts: another one
 }
 
 template<class SM>
@@ -112,7 +129,8 @@ template<class SM, class LU>
 static void lu_separate(const Case& cs, Out& out, bool solve)
 {
   SM A = build_A<SM>(cs);
-  auto lu = LU::template Create<SM, SM, SM>(A);
+  SM Astructure = build_structure<SM>(cs, other_block_count(cs));
+  auto lu = LU::template Create<SM, SM, SM>(Astructure);
   std::vector<std::vector<long long>> results;
   std::unique_ptr<SM> keepL, keepU;
   for (int variant = 0; variant < 2; ++variant)
@@ -170,7 +188,8 @@ template<class SM, class LU>
 static void lu_in_place(const Case& cs, Out& out)
 {
   SM A = build_A<SM>(cs);
-  auto lu = LU::template Create<SM>(A);
+  SM Astructure = build_structure<SM>(cs, other_block_count(cs));
+  auto lu = LU::template Create<SM>(Astructure);
   SM ALU = LU::template GetLUMatrix<SM>(A, Zp(0));
   for (std::size_t b = 0; b < cs.nb; ++b)
     for (auto& p : cs.pat)
@@ -190,7 +209,8 @@ template<class SM, class DM, class LU>
 static void solve_separate(const Case& cs, Out& out)
 {
   SM A = build_A<SM>(cs);
-  micm::LinearSolver<SM, LU, SM, SM> solver(A, Zp(0));
+  SM Astructure = build_structure<SM>(cs, other_block_count(cs));
+  micm::LinearSolver<SM, LU, SM, SM> solver(Astructure, Zp(0));
   auto LUm = LU::template GetLUMatrices<SM, SM, SM>(A, Zp(0));
   for (auto& e : LUm.first.AsVector())
     e = Zp(424242);
@@ -242,7 +262,8 @@ template<class SM, class DM, class LU>
 static void solve_in_place(const Case& cs, Out& out)
 {
   SM A = build_A<SM>(cs);
-  micm::LinearSolverInPlace<SM, LU> solver(A, Zp(0));
+  SM Astructure = build_structure<SM>(cs, other_block_count(cs));
+  micm::LinearSolverInPlace<SM, LU> solver(Astructure, Zp(0));
   SM ALU = LU::template GetLUMatrix<SM>(A, Zp(0));
   for (std::size_t b = 0; b < cs.nb; ++b)
     for (auto& p : cs.pat)
@@ -351,7 +372,7 @@ static void fam(Toks& tk, Out& out, bool solve)
 // family "linbig": alg csc L nb n density% seed — a large system generated from the seed (too large for a case line and
 // for the extracted model: implementation oracle only): pattern = diagonal + random off-diagonal elements, values
 // uniform in Z_p; Factor + Solve with the right-hand side b = A * x0; the oracle is A x == b, x == x0 unless a pivot vanished.
-static void fam_linbig(Toks& tk, Out& out)
+static void fam_big(Toks& tk, Out& out, bool solve)
 {
   Case cs;
   cs.alg = (int)tk.i();
@@ -385,22 +406,134 @@ static void fam_linbig(Toks& tk, Out& out)
   {
     VERIF_DISPATCH_L(
         L,
-        (dispatch_alg<micm::SparseMatrixStandardOrderingCompressedSparseColumn, micm::Matrix<Zp>>(cs, inner, true)),
-        (dispatch_alg<micm::SparseMatrixVectorOrderingCompressedSparseColumn<LL>, micm::VectorMatrix<Zp, LL>>(cs, inner, true)));
+        (dispatch_alg<micm::SparseMatrixStandardOrderingCompressedSparseColumn, micm::Matrix<Zp>>(cs, inner, solve)),
+        (dispatch_alg<micm::SparseMatrixVectorOrderingCompressedSparseColumn<LL>, micm::VectorMatrix<Zp, LL>>(cs, inner, solve)));
   }
   else
   {
     VERIF_DISPATCH_L(
         L,
-        (dispatch_alg<micm::SparseMatrixStandardOrderingCompressedSparseRow, micm::Matrix<Zp>>(cs, inner, true)),
-        (dispatch_alg<micm::SparseMatrixVectorOrderingCompressedSparseRow<LL>, micm::VectorMatrix<Zp, LL>>(cs, inner, true)));
+        (dispatch_alg<micm::SparseMatrixStandardOrderingCompressedSparseRow, micm::Matrix<Zp>>(cs, inner, solve)),
+        (dispatch_alg<micm::SparseMatrixVectorOrderingCompressedSparseRow<LL>, micm::VectorMatrix<Zp, LL>>(cs, inner, solve)));
   }
   out.tok("n=" + std::to_string(cs.n));
   out.tok("nnz=" + std::to_string(cs.pat.size()));
-  if (inner.s.find("ORACLE_AX_NE_B") != std::string::npos)
-    out.tok("ORACLE_AX_NE_B");
+  for (const char* t : { "ORACLE_AX_NE_B", "ORACLE_LU_NE_A", "ORACLE_L_NOT_UNIT", "ORACLE_L_NOT_LOWER", "ORACLE_U_NOT_UPPER", "ORACLE_DEPENDS_ON_PRIOR_LU" })
+    if (inner.s.find(t) != std::string::npos)
+      out.tok(t);
   if (inner.s.find("NOTE_ZERO_PIVOT") != std::string::npos)
     out.tok("NOTE_ZERO_PIVOT");
+}
+
+// family "linscale": alg csc L nb n np (r c)*np vals[nb*np] rhs[nb*n] — the real double instantiation: the system
+// (A, b) and the system (2^-70 A, 2^-70 b) have the same solution, and since scaling by a power of two is exact in
+// binary64 (no underflow at these sizes) every operation of the factorisation and the substitution commutes with
+// it: the two computed solutions must be bit-identical, and the tiny system must not be refused.
+template<class SM, class DM, class LU, bool InPlace>
+static std::vector<double> scale_solve(const Case& cs, double scale)
+{
+  auto builder = SM::Create(cs.n).SetNumberOfBlocks(cs.nb).InitialValue(0.0);
+  for (auto& p : cs.pat)
+    builder = builder.WithElement(p.first, p.second);
+  SM A(builder);
+  for (std::size_t b = 0; b < cs.nb; ++b)
+    for (std::size_t k = 0; k < cs.pat.size(); ++k)
+      A[b][cs.pat[k].first][cs.pat[k].second] = (double)cs.vals[b * cs.pat.size() + k] * scale;
+  DM x(cs.nb, cs.n, 0.0);
+  for (std::size_t b = 0; b < cs.nb; ++b)
+    for (std::size_t i = 0; i < cs.n; ++i)
+      x[b][i] = (double)cs.rhs[b * cs.n + i] * scale;
+  if constexpr (InPlace)
+  {
+    micm::LinearSolverInPlace<SM, LU> solver(A, 0.0);
+    SM ALU = LU::template GetLUMatrix<SM>(A, 0.0);
+    for (std::size_t b = 0; b < cs.nb; ++b)
+      for (auto& p : cs.pat)
+        ALU[b][p.first][p.second] = A[b][p.first][p.second];
+    solver.Factor(ALU);
+    solver.template Solve<DM>(x, ALU);
+  }
+  else
+  {
+    micm::LinearSolver<SM, LU, SM, SM> solver(A, 0.0);
+    auto LUm = LU::template GetLUMatrices<SM, SM, SM>(A, 0.0);
+    solver.Factor(A, LUm.first, LUm.second);
+    solver.template Solve<DM>(x, LUm.first, LUm.second);
+  }
+  std::vector<double> r;
+  for (std::size_t b = 0; b < cs.nb; ++b)
+    for (std::size_t i = 0; i < cs.n; ++i)
+      r.push_back(x[b][i]);
+  return r;
+}
+
+template<class Ordering, class DM>
+static void scale_alg(const Case& cs, Out& out)
+{
+  using SM = micm::SparseMatrix<double, Ordering>;
+  std::vector<double> big, small;
+  try
+  {
+    switch (cs.alg)
+    {
+      case 0: big = scale_solve<SM, DM, micm::LuDecompositionDoolittle, false>(cs, 1.0); small = scale_solve<SM, DM, micm::LuDecompositionDoolittle, false>(cs, 0x1p-70); break;
+      case 1: big = scale_solve<SM, DM, micm::LuDecompositionMozart, false>(cs, 1.0); small = scale_solve<SM, DM, micm::LuDecompositionMozart, false>(cs, 0x1p-70); break;
+      case 2: big = scale_solve<SM, DM, micm::LuDecompositionDoolittleInPlace, true>(cs, 1.0); small = scale_solve<SM, DM, micm::LuDecompositionDoolittleInPlace, true>(cs, 0x1p-70); break;
+      default: big = scale_solve<SM, DM, micm::LuDecompositionMozartInPlace, true>(cs, 1.0); small = scale_solve<SM, DM, micm::LuDecompositionMozartInPlace, true>(cs, 0x1p-70); break;
+    }
+  }
+  catch (const std::exception& e)
+  {
+    out.tok("ORACLE_WELL_CONDITIONED_SYSTEM_REFUSED");
+    return;
+  }
+  bool finite = true;
+  for (double v : big)
+    if (!std::isfinite(v))
+      finite = false;
+  if (!finite)
+  {
+    out.tok("NOTE_ZERO_PIVOT");
+    return;
+  }
+  for (std::size_t k = 0; k < big.size(); ++k)
+    if (std::memcmp(&big[k], &small[k], sizeof(double)) != 0)
+    {
+      out.tok("ORACLE_SOLUTION_DEPENDS_ON_THE_SCALE_OF_THE_SYSTEM");
+      break;
+    }
+}
+
+static void fam_linscale(Toks& tk, Out& out)
+{
+  Case cs;
+  cs.alg = (int)tk.i();
+  long long csc = tk.i(), L = tk.i();
+  cs.nb = tk.i();
+  cs.n = tk.i();
+  long long np = tk.i();
+  for (long long k = 0; k < np; ++k)
+  {
+    auto r = tk.i();
+    auto c = tk.i();
+    cs.pat.emplace_back(r, c);
+  }
+  cs.vals = tk.ints(cs.nb * cs.pat.size());
+  cs.rhs = tk.ints(cs.nb * cs.n);
+  if (csc)
+  {
+    VERIF_DISPATCH_L(
+        L,
+        (scale_alg<micm::SparseMatrixStandardOrderingCompressedSparseColumn, micm::Matrix<double>>(cs, out)),
+        (scale_alg<micm::SparseMatrixVectorOrderingCompressedSparseColumn<LL>, micm::VectorMatrix<double, LL>>(cs, out)));
+  }
+  else
+  {
+    VERIF_DISPATCH_L(
+        L,
+        (scale_alg<micm::SparseMatrixStandardOrderingCompressedSparseRow, micm::Matrix<double>>(cs, out)),
+        (scale_alg<micm::SparseMatrixVectorOrderingCompressedSparseRow<LL>, micm::VectorMatrix<double, LL>>(cs, out)));
+  }
 }
 
 // family "markowitz": n L bits[n*n] — the real DiagonalMarkowitzReorder on a 0/1 pattern; oracle: the
@@ -432,5 +565,5 @@ static void fam_markowitz(Toks& tk, Out& out)
 
 int main()
 {
-  return vio::run({ { "markowitz", fam_markowitz }, { "lu", [](Toks& t, Out& o) { fam(t, o, false); } }, { "linsolve", [](Toks& t, Out& o) { fam(t, o, true); } }, { "linbig", fam_linbig } });
+  return vio::run({ { "markowitz", fam_markowitz }, { "lu", [](Toks& t, Out& o) { fam(t, o, false); } }, { "linsolve", [](Toks& t, Out& o) { fam(t, o, true); } }, { "linbig", [](Toks& t, Out& o) { fam_big(t, o, true); } }, { "lubig", [](Toks& t, Out& o) { fam_big(t, o, false); } }, { "linscale", fam_linscale } });
 }
